@@ -213,16 +213,38 @@ def selftests_trie(ctx, sd, tr):
         first = ids[0]
         other = next((i for i in ids if i != first), None)
         for e in evs:
-            if e["a"] in ("RootHash", "Commit") and e["out"].get("rid") == other:
+            if other is None:
+                if e["a"] in ("RootHash", "Commit") and e["out"].get("rid") == first:
+                    e["out"]["rid"] = 1  # the id of the empty-trie hash
+                    break
+            elif e["a"] in ("RootHash", "Commit") and e["out"].get("rid") == other:
                 e["out"]["rid"] = first
         return evs
 
     def dropped_update(evs):
+        # drop an Update that changes a key's value and whose next event on that key (same trace, no Recreate in
+        # between) is a Get: the specification then predicts the old value for that Get
+        cur = {}
         for i, e in enumerate(evs):
-            if e["a"] == "Update" and e["in"]["v"] > 0 and any(
-                    f["a"] == "Get" and f["in"]["k"] == e["in"]["k"] and f["t"] == e["t"] for f in evs[i + 1:i + 40]):
-                del evs[i]
-                break
+            if e["a"] == "New":
+                cur = {}
+            if e["a"] == "Recreate":
+                cur = None
+            if cur is None or e["a"] not in ("Update", "Delete"):
+                continue
+            k = json.dumps(e["in"]["k"])
+            v = e["in"].get("v", 0)
+            if e["a"] == "Update" and v > 0 and cur.get(k, 0) != v:
+                for f in evs[i + 1:]:
+                    if f["t"] != e["t"] or f["a"] == "Recreate":
+                        break
+                    if f["a"] in ("Update", "Delete", "Get") and json.dumps(f["in"]["k"]) == k:
+                        if f["a"] == "Get":
+                            del evs[i]
+                            return evs
+                        break
+            cur[k] = v
+        evs[1]["a"] = "Nonsense"   # no suitable pair in this trace: any unknown event must be rejected as well
         return evs
     tests = {"C01": [wrong_get, dropped_update], "C02": [merged_roots], "C03": [wrong_get]}[ctx.prop]
     for t in tests:
